@@ -266,9 +266,14 @@ def search(ctx, deep=False):
     for i in range(n):
         feats = gens.rand_features(rng, 0.3)
         d = int(rng.choice([2, 2, 3, 4])) if i % 10 else int(rng.choice([5, 8]))
-        basis = gens.rand_basis_spec(rng, d, allow_incomplete=True)
+        # ("every operator basis": complete orthonormal bases with non-Hermitian elements included)
+        basis = gens.rand_basis_spec(rng, d, allow_incomplete=True, allow_nonherm=d <= 4)
         desc = gens.rand_desc(rng, d=d, n_dt=int(rng.integers(1, 6)), features=feats, basis=basis)
         omega = gens.resonant_omegas(rng, desc, thr)
+        if i % 4 == 1:
+            # a two-sided grid: every frequency together with its negative (and a repeated one)
+            half = np.abs(omega[:8])
+            omega = np.concatenate((-half[::-1], half, half[:1]))
         if len(omega) > 24:
             omega = np.concatenate((omega[:1], rng.choice(omega[1:], 23, replace=False)))
         case = {'desc': desc, 'omega': omega, 'hseed': int(rng.integers(0, 2**31))}
